@@ -18,7 +18,7 @@ use searchlite_core::api::types::{Document, IndexOptions, SearchRequest, Storage
 use searchlite_core::{Index, Manifest, Schema};
 
 const MAX_BODY: usize = 4096;
-const TIMEOUT_SECS: u64 = 2;
+const TIMEOUT_SECS: u64 = 3;
 const MARKER: &str = "__slv_panic__";
 
 const ROUTES: [(&str, &str); 11] = [
@@ -328,7 +328,7 @@ fn doc_variant(rng: &mut Rng, k: &mut u64) -> Value {
     2 => json!({"_id": format!("d{i}"), "n": "x"}),
     3 => json!({"_id": format!("d{i}"), "body": 5}),
     4 => json!({"_id": format!("d{i}"), "n": 1.5}),
-    5 => json!({"_id": format!("{MARKER}{i}"), "body": "boom"}),
+    5 | 6 => json!({"_id": format!("{MARKER}{i}"), "body": "boom"}),
     _ => json!({"_id": format!("d{i}"), "body": format!("w{k} common rust"), "tag": "t", "n": *k}),
   }
 }
@@ -348,7 +348,7 @@ fn gen_body(rng: &mut Rng, path: &str, k: &mut u64) -> Vec<u8> {
         match rng.below(14) {
           0 => out.push_str("   "),
           1 => out.push_str("{\"_id\": \"d1\""),
-          2 => out.push_str(rng.pick(&["[1,2]", "\"str\"", "42", "null"][..])),
+          2 => out.push_str(*rng.pick(&["[1,2]", "\"str\"", "42", "null"][..])),
           _ => out.push_str(&doc_variant(rng, k).to_string()),
         }
         out.push_str(if rng.chance(1, 6) { "\r\n" } else { "\n" });
@@ -398,6 +398,8 @@ fn gen_body(rng: &mut Rng, path: &str, k: &mut u64) -> Vec<u8> {
       13 => json!({"query": "body:(", "limit": 5, "return_stored": true}).to_string(),
       14 => json!({"query": "rust", "limit": 5, "return_stored": true, "aggs": {"c": {"type": "terms", "field": "body"}}}).to_string(),
       15 => json!({"query": "rust", "limit": 5, "return_stored": true, "fields": ["nope"]}).to_string(),
+      // a repeated term trips a debug assertion of the core in builds with debug assertions: a real core panic
+      16 => json!({"query": "common rust common", "limit": 5, "return_stored": true}).to_string(),
       _ => json!({"query": rng.pick(&["rust", "common", "w3", "zzz"][..]), "limit": 1 + rng.below(5), "return_stored": rng.chance(1, 2)}).to_string(),
     },
     _ => match rng.below(4) {
@@ -413,7 +415,7 @@ fn mutate(rng: &mut Rng, body: &mut Vec<u8>) {
   let n = 1 + rng.below(3);
   for _ in 0..n {
     if body.is_empty() {
-      body.extend_from_slice(rng.pick(&[&b"{"[..], &b"x"[..], &b"\n"[..], &b"[]"[..]][..]));
+      body.extend_from_slice(*rng.pick(&[&b"{"[..], &b"x"[..], &b"\n"[..], &b"[]"[..]][..]));
       continue;
     }
     let pos = rng.below(body.len() as u64) as usize;
@@ -553,9 +555,15 @@ fn main() {
   let mut dist: BTreeMap<String, u64> = BTreeMap::new();
   let per_session = 70usize;
   let sessions = (args.n + per_session - 1) / per_session;
-  let mut slow_budget = if thorough { 24 } else { 4 };
+  let mut slow_budget = if thorough { 24 } else { 3 };
   // the injected panics print through the default hook; keep the log readable
-  std::panic::set_hook(Box::new(|_| {}));
+  let default_hook = std::panic::take_hook();
+  std::panic::set_hook(Box::new(move |info| {
+    let msg = info.payload().downcast_ref::<&str>().map(|s| s.to_string()).or_else(|| info.payload().downcast_ref::<String>().cloned()).unwrap_or_default();
+    if !msg.contains("injected core panic") {
+      default_hook(info);
+    }
+  }));
   let mut k = 0u64;
   for session in 0..sessions {
     let dir = slv::fixtures::scratch();
@@ -575,7 +583,9 @@ fn main() {
       let (target_coq, path): (String, Option<String>) = if forced_init {
         ("Known R_init".into(), Some("/init".into()))
       } else if tsel < 82 {
-        let (p, _) = *rng.pick(&ROUTES[..]);
+        // half of the routed requests go to the five body-reading routes
+        let (p, _) = if rng.chance(1, 2) { *rng.pick(&ROUTES[1..5]) } else { *rng.pick(&ROUTES[..]) };
+        let p = if p == "/init" && rng.chance(1, 2) { "/search" } else { p };
         (format!("Known {}", route_coq(p)), Some(p.to_string()))
       } else if tsel < 96 {
         let p = rng.pick(&["/", "/nope", "/add/", "/ADD", "/search/x", "/healthz2", "/v1/search", "/init/", "/stats.json"][..]);
@@ -643,7 +653,7 @@ fn main() {
       let mut raw: Vec<u8> = Vec::new();
       let garbage_kind;
       if target_coq == "Garbage" {
-        let g: &[u8] = rng.pick(&[
+        let g: &[u8] = *rng.pick(&[
           &b"GARBAGE\r\n\r\n"[..],
           &b"\x00\x01\x02\x03\r\n\r\n"[..],
           &b"GET /healthz HTTP/1.1\r\nbad header line\r\n\r\n"[..],
